@@ -6,3 +6,5 @@ LEVEL = "model_checking"
 
 def run(ck):
     channel_common.run_channel(ck, "C03")
+    if ck.tier == "thorough" or __import__("os").environ.get("VERIF_API_LEVEL"):
+        channel_common.api_level_f1(ck)
